@@ -26,7 +26,10 @@ pub fn run(ctx: &mut Ctx, prop: &str) {
         "C05" => c05(ctx),
         "C06" => c06(ctx),
         "C08" => c08(ctx),
+        "C09" => c09(ctx),
         "C10" => c10(ctx),
+        "C11" => c11(ctx),
+        "C17" => c17(ctx),
         "C19" => c19(ctx),
         _ => {}
     }
@@ -1615,4 +1618,536 @@ fn c06(ctx: &mut Ctx) {
         }
     }
     flush(ctx, "C06-ipa");
+}
+
+// ------------------------------------------------------------------------------------------------
+// C09: the library's `setup` (hash-derived generators) and `trim` against the model
+// ------------------------------------------------------------------------------------------------
+
+/// `sample_generators` recomputed without the library's hash-to-curve path: Blake2s of
+/// `PROTOCOL_NAME ‖ i` (then `‖ j`), the digest read as a little-endian base-field element `x`
+/// (32 bytes: below the modulus, flag byte zero = "larger root"), the larger root of `x³ + 4`, and a
+/// double-and-add multiplication by the cofactor.
+fn derive_generator(i: u64) -> G1Affine {
+    use ark_bls12_381::Fq;
+    use ark_ec::CurveConfig;
+    use ark_ff::PrimeField;
+    use blake2::{Blake2s256, Digest};
+    let name: &[u8] = b"PC-DL-2020";
+    let point = |hash: &[u8]| -> Option<G1Affine> {
+        let x = Fq::from_le_bytes_mod_order(hash);
+        let y = (x * x * x + Fq::from(4u64)).sqrt()?;
+        let ny = -y;
+        let larger = if y.into_bigint() > ny.into_bigint() { y } else { ny };
+        Some(G1Affine::new_unchecked(x, larger))
+    };
+    let mut input = name.to_vec();
+    input.extend(i.to_le_bytes());
+    let mut g = point(&Blake2s256::digest(&input));
+    let mut j = 0u64;
+    while g.is_none() {
+        let mut b = name.to_vec();
+        b.extend(i.to_le_bytes());
+        b.extend(j.to_le_bytes());
+        g = point(&Blake2s256::digest(&b));
+        j += 1;
+    }
+    let g = g.unwrap();
+    let mut acc = G1Projective::zero();
+    for limb in <ark_bls12_381::g1::Config as CurveConfig>::COFACTOR.iter().rev() {
+        for bit in (0..64).rev() {
+            acc = acc + acc;
+            if (limb >> bit) & 1 == 1 {
+                acc += g;
+            }
+        }
+    }
+    acc.into_affine()
+}
+
+fn c09(ctx: &mut Ctx) {
+    use ark_poly_commit::PCUniversalParams;
+    // (a) the library's setup
+    let sizes: Vec<usize> = if ctx.thorough { vec![0, 1, 2, 3, 4, 6, 7, 8, 12, 15, 16, 31, 40, 63, 64] } else { vec![0, 1, 2, 3, 5, 8, 13, 20] };
+    let mut prev: Option<Vec<G1Affine>> = None;
+    for &d in &sizes {
+        let id = format!("C09/ipa-model/setup/{}", d);
+        if !ctx.selected(&id) {
+            continue;
+        }
+        let mut rng = rng_for(ctx.seed, "C09/ipa-model/setup", d as u64);
+        let pp = match guarded(|| PC::setup(d, None, &mut rng)) {
+            Ok(Ok(p)) => p,
+            other => {
+                ctx.rep.expect_fail(&id, "ipa/setup-refused", &format!("setup({}) refused: {}", d, kind_of(&other)), format!("# scheme: ipa setup({})\n", d));
+                continue;
+            }
+        };
+        let mut rng2 = rng_for(ctx.seed ^ 0xabc, "C09/ipa-model/setup-other", d as u64 + 1000);
+        let pp2 = PC::setup(d, Some(3), &mut rng2).unwrap();
+        let mut bad: Vec<String> = vec![];
+        let n = (d + 1).next_power_of_two();
+        if pp.comm_key.len() != n {
+            bad.push(format!("{} generators for max_degree {} (expected {})", pp.comm_key.len(), d, n));
+        }
+        if pp.max_degree() + 1 != pp.comm_key.len() {
+            bad.push("max_degree() report".into());
+        }
+        if pp.comm_key != pp2.comm_key || pp.h != pp2.h || pp.s != pp2.s {
+            bad.push("two setups disagree (generators depend on the RNG / the unused argument)".into());
+        }
+        let mut all: Vec<G1Affine> = pp.comm_key.clone();
+        all.push(pp.s);
+        all.push(pp.h);
+        for (i, g) in all.iter().enumerate() {
+            if g.is_zero() || !g.is_on_curve() || !g.is_in_correct_subgroup_assuming_on_curve() {
+                bad.push(format!("generator {} is the identity / off the curve / outside the subgroup", i));
+                break;
+            }
+        }
+        for i in 0..all.len() {
+            for j in 0..i {
+                if all[i] == all[j] || all[i] == -all[j] {
+                    bad.push(format!("generators {} and {} coincide (up to sign)", j, i));
+                }
+            }
+        }
+        // derived from the protocol seed: index i of the sampled list (s = index n, h = index n + 1)
+        for (i, g) in all.iter().enumerate() {
+            if *g != derive_generator(i as u64) {
+                bad.push(format!("generator {} is not the hash-to-curve image of (PROTOCOL_NAME, {})", i, i));
+                break;
+            }
+        }
+        if let Some(p) = &prev {
+            let k = p.len().min(pp.comm_key.len());
+            if p[..k] != pp.comm_key[..k] {
+                bad.push("generators are not prefix-stable across sizes".into());
+            }
+        }
+        // trim on the library's parameters: prefix, power of two, same h / s, truthful reports
+        for sup in [0usize, d / 2, d, d + 1, n - 1, n, 2 * n] {
+            let r = guarded(|| PC::trim(&pp, sup, 0, None));
+            let m = (sup + 1).next_power_of_two();
+            match r {
+                Ok(Ok((ck, vk))) => {
+                    if m > n {
+                        bad.push(format!("trim({}) beyond the parameters answered", sup));
+                    }
+                    if ck.comm_key[..] != pp.comm_key[..m.min(n)] || ck.comm_key.len() != m || vk.comm_key != ck.comm_key || ck.h != pp.h || ck.s != pp.s || vk.h != pp.h || vk.s != pp.s {
+                        bad.push(format!("trim({}) is not the {}-prefix of the parameters with the same h, s", sup, m));
+                    }
+                    if ck.supported_degree() != m - 1 || ark_poly_commit::PCVerifierKey::supported_degree(&vk) != m - 1 || ck.max_degree() != n - 1 || ark_poly_commit::PCVerifierKey::max_degree(&vk) != n - 1 {
+                        bad.push(format!("trim({}): degree reports", sup));
+                    }
+                    // supports exactly what it reports
+                    let p_ok = LabeledPolynomial::new("a".to_string(), UniPoly::rand(m - 1, &mut rng), None, None);
+                    let p_bad = LabeledPolynomial::new("b".to_string(), UniPoly::rand(m, &mut rng), None, None);
+                    if !matches!(guarded(|| PC::commit(&ck, [&p_ok], None)), Ok(Ok(_))) {
+                        bad.push(format!("trim({}): commit at degree == supported refused", sup));
+                    }
+                    if matches!(guarded(|| PC::commit(&ck, [&p_bad], None)), Ok(Ok(_))) {
+                        bad.push(format!("trim({}): commit at degree == supported + 1 answered", sup));
+                    }
+                }
+                other => {
+                    if m <= n {
+                        bad.push(format!("in-range trim({}) refused: {}", sup, kind_of(&other)));
+                    }
+                }
+            }
+        }
+        if !bad.is_empty() {
+            ctx.rep.expect_fail(&id, "ipa/setup-inconsistent", &bad.join("; "), format!("# scheme: ipa setup({})\n# {}\n# rerun: .build/cargo/debug/pcv-harness C09 --seed {} --only {}\n", d, bad.join("; "), ctx.seed, id));
+        }
+        prev = Some(pp.comm_key.clone());
+        ctx.rep.count("ipa/setup");
+        ctx.rep.case(&format!("ipa setup D={} key={} (+h, s) derivation recomputed", d, pp.comm_key.len()), Some(format!("ipa-model-setup/{}", d)));
+    }
+    // (b) trim in trapdoor mode against the model: parameter lists of any length (powers of two and
+    // hand-made other lengths, the empty list), requests on both sides of every boundary
+    let lens: Vec<usize> = if ctx.thorough { (0..=18).chain([31, 32, 33]).collect() } else { vec![0, 1, 2, 3, 4, 5, 7, 8, 9, 16] };
+    for &len in &lens {
+        let mut reqs: Vec<usize> = vec![0, 1, 2, 3, len / 2, len.saturating_sub(2), len.saturating_sub(1), len, len + 1, 2 * len];
+        reqs.sort();
+        reqs.dedup();
+        for req in reqs {
+            let id = format!("C09/ipa-model/trim/{}/{}", len, req);
+            if !ctx.selected(&id) {
+                continue;
+            }
+            let mut rng = rng_for(ctx.seed, "C09/ipa-model/trim", (len * 1000 + req) as u64);
+            let trap = Trap::random(&mut rng, len);
+            let pp = trap.params();
+            let r = guarded(|| PC::trim(&pp, req, range(&mut rng, 0, 3), if coin(&mut rng) { None } else { Some(&[1usize, 2][..]) }));
+            let m = (req + 1).next_power_of_two();
+            let in_domain = len > 0 && m <= len;
+            let answered = matches!(r, Ok(Ok(_)));
+            if answered != in_domain {
+                ctx.rep.expect_fail(&id, if answered { "ipa/trim-out-of-range-answered" } else { "ipa/trim-refused" }, &format!("trim(|pp| = {}, supported = {}): in-domain {} answered {}", len, req, in_domain, answered),
+                    format!("# scheme: ipa\n# case: {}\n# seed: {}\n# key scalars={}\n", id, ctx.seed, wire::fes(&trap.key)));
+            }
+            let out = match &r {
+                Ok(Ok((ck, vk))) => {
+                    if ck.comm_key[..] != pp.comm_key[..m.min(len)] || vk.comm_key != ck.comm_key || ck.h != pp.h || ck.s != pp.s || vk.h != pp.h || vk.s != pp.s || ck.supported_degree() + 1 != ck.comm_key.len() || ck.max_degree() + 1 != len {
+                        ctx.rep.expect_fail(&id, "ipa/trim-unfaithful", "trimmed key is not the power-of-two prefix of the parameters with the same h, s and truthful reports", format!("# scheme: ipa\n# case: {}\n# seed: {}\n", id, ctx.seed));
+                    }
+                    ImplOutcome::Ok(vec![
+                        ("key".into(), Expect::G1s(ck.comm_key.clone())),
+                        ("h".into(), Expect::G1(ck.h)),
+                        ("s".into(), Expect::G1(ck.s)),
+                        ("max_degree".into(), Expect::Nat(ck.max_degree)),
+                        ("supported".into(), Expect::Nat(ck.supported_degree())),
+                        ("vkey".into(), Expect::G1s(vk.comm_key.clone())),
+                        ("vh".into(), Expect::G1(vk.h)),
+                        ("vs".into(), Expect::G1(vk.s)),
+                    ])
+                }
+                Ok(Err(e)) => ImplOutcome::Refuse(err_kind(e)),
+                Err(a) => ImplOutcome::Refuse(a.clone()),
+            };
+            ctx.ses.ask(&id, base_of(&trap, "ipa.trim", req), out);
+            ctx.rep.count(&format!("ipa/trim-in-domain-{}", in_domain));
+            ctx.rep.case(&format!("ipa trim |pp|={} supported={} -> {}", len, req, kind_of(&r)), Some(format!("ipa-model-trim/{}/{}", len, req)));
+        }
+    }
+    flush(ctx, "C09-ipa");
+}
+
+// ------------------------------------------------------------------------------------------------
+// C11: histories on one sponge and one random oracle, model-backed
+// ------------------------------------------------------------------------------------------------
+
+fn c11(ctx: &mut Ctx) {
+    let n = ctx.n(16, 160);
+    let reqs = [1usize, 2, 3, 4, 7, 8];
+    for i in 0..n {
+        let id0 = format!("C11/ipa-model/{}", i);
+        if !ctx.selected(&id0) {
+            continue;
+        }
+        let mut rng = rng_for(ctx.seed, "C11/ipa-model", i as u64);
+        let req = reqs[i % reqs.len()];
+        let npoly = range(&mut rng, 1, 3);
+        let c = match new_case(ctx, &mut rng, &id0, req, npoly, i % 2 == 0, i % 3 != 0) { Some(c) => c, None => continue };
+        let cs = match scalars_or_fail(ctx, &id0, &c) { Some(x) => x, None => continue };
+        // the history: 2-4 `open` operations (subsets of the polynomials at fresh points) on ONE sponge
+        // pre-seeded with absorbed data; the random-oracle log is cut per operation
+        let nops = range(&mut rng, 2, 4);
+        let mut sp_p = LogSponge::fresh();
+        sp_p.absorb_seed(7000 + i as u64);
+        let mut sp_v = sp_p.clone();
+        struct OpRec { idx: Vec<usize>, z: Fr, values: Vec<Fr>, ps: ProofS, xis: Vec<Fr>, ros: Vec<Fr>, pre: LogSponge }
+        let mut ops: Vec<OpRec> = vec![];
+        let mut ok = true;
+        for o in 0..nops {
+            let mut idx: Vec<usize> = (0..npoly).filter(|_| coin(&mut rng)).collect();
+            if idx.is_empty() {
+                idx.push(range(&mut rng, 0, npoly - 1));
+            }
+            let z = Fr::rand(&mut rng);
+            let polys: Vec<&LP> = idx.iter().map(|&k| &c.polys[k]).collect();
+            let comms: Vec<&LC> = idx.iter().map(|&k| &c.comms[k]).collect();
+            let rands: Vec<&Rand> = idx.iter().map(|&k| &c.rands[k]).collect();
+            let csub: Vec<CommS> = idx.iter().map(|&k| cs[k].clone()).collect();
+            let draws = replay_fr(&rng, c.s + 6);
+            let pre = sp_p.clone();
+            let before = sp_p.challenges().len();
+            ro_clear();
+            let r = guarded(|| PC::open(&c.ck, polys.iter().cloned(), comms.iter().cloned(), &z, &mut sp_p, rands.iter().cloned(), Some(&mut rng)));
+            let (ros, _) = ro_take();
+            let proof = match r {
+                Ok(Ok(p)) => p,
+                other => {
+                    ctx.rep.expect_fail(&id0, "ipa/honest-open-refused", &format!("history op {}: open refused: {}", o, kind_of(&other)), c.replay(&id0, ctx.seed, "history"));
+                    ok = false;
+                    break;
+                }
+            };
+            let xis: Vec<Fr> = sp_p.challenges()[before..].to_vec();
+            let sc = scalar_open(&c.trap, c.s, &polys, &csub.iter().collect::<Vec<_>>(), &rands, z, &xis, &ros, &draws);
+            let ps = match sc {
+                Some((ps, ux, ur, _)) if ps.matches(&proof) && ux == xis.len() && ur == ros.len() => ps,
+                _ => {
+                    ctx.rep.expect_fail(&id0, "ipa/proof-not-key-defined", &format!("history op {}: proof / consumption differs from the scalar prover", o), c.replay(&id0, ctx.seed, "history"));
+                    ok = false;
+                    break;
+                }
+            };
+            // the model's prover on this slice of the streams (plus surplus it must leave untouched)
+            let mut e = rng_for(9, &id0, o as u64);
+            let mut xi_m = xis.clone();
+            xi_m.push(Fr::rand(&mut e));
+            xi_m.push(Fr::rand(&mut e));
+            let mut ro_m = ros.clone();
+            ro_m.push(rand_nonzero(&mut e));
+            let lp: Vec<LP> = polys.iter().map(|p| (*p).clone()).collect();
+            let lr: Vec<Rand> = rands.iter().map(|r| (*r).clone()).collect();
+            let reqm = comms_args(rands_args(polys_args(c.base("ipa.open"), &lp), &lr), &csub)
+                .arg("z", wire::fe(&z)).arg("xis", wire::fes(&xi_m)).arg("ros", wire::fes(&ro_m))
+                .arg("rng", wire::boolean(true)).arg("draws", wire::fes(&draws));
+            ctx.ses.ask(&format!("{}/op{}/open", id0, o), reqm, ImplOutcome::Ok(vec![
+                ("ls".into(), Expect::G1s(proof.l_vec.clone())),
+                ("rs".into(), Expect::G1s(proof.r_vec.clone())),
+                ("fck".into(), Expect::G1(proof.final_comm_key)),
+                ("pc".into(), Expect::Fe(proof.c)),
+                ("used_xi".into(), Expect::Nat(xis.len())),
+                ("used_ro".into(), Expect::Nat(ros.len())),
+            ]));
+            let values: Vec<Fr> = polys.iter().map(|p| p.evaluate(&z)).collect();
+            ops.push(OpRec { idx, z, values, ps, xis, ros, pre });
+        }
+        if !ok {
+            continue;
+        }
+        // the verifier on an identically initialised sponge, same order
+        let vkey = vks(&c);
+        for (o, op) in ops.iter().enumerate() {
+            let csub: Vec<CommS> = op.idx.iter().map(|&k| cs[k].clone()).collect();
+            let comms = comms_from(&csub);
+            let proof = op.ps.to_proof();
+            let before = sp_v.challenges().len();
+            ro_clear();
+            let r = guarded(|| PC::check(&c.vk, &comms, &op.z, op.values.iter().cloned(), &proof, &mut sp_v, None));
+            let (vros, _) = ro_take();
+            let vxis: Vec<Fr> = sp_v.challenges()[before..].to_vec();
+            let id = format!("{}/op{}/check", id0, o);
+            if !matches!(r, Ok(Ok(true))) {
+                ctx.rep.expect_fail(&id, "ipa/history-rejected/open", &format!("history op {}: honest proof not accepted on the shared transcript: {}", o, kind_of(&r)), c.replay(&id, ctx.seed, "history"));
+            }
+            if vxis != op.xis || vros != op.ros {
+                ctx.rep.expect_fail(&id, "ipa/sponge-diverged/open", &format!("history op {}: verifier squeezed {} challenges / {} oracle outputs, prover {} / {} (or different values)", o, vxis.len(), vros.len(), op.xis.len(), op.ros.len()), c.replay(&id, ctx.seed, "history"));
+            }
+            let mut e = rng_for(10, &id0, o as u64);
+            let mut xi_m = vxis.clone();
+            xi_m.push(Fr::rand(&mut e));
+            let mut ro_m = vros.clone();
+            ro_m.push(rand_nonzero(&mut e));
+            let reqv = proof_args(comms_args(base_of(&vkey.trap, "ipa.check", vkey.req), &csub), &op.ps)
+                .arg("z", wire::fe(&op.z)).arg("vs", wire::fes(&op.values)).arg("xis", wire::fes(&xi_m)).arg("ros", wire::fes(&ro_m));
+            ctx.ses.ask(&id, reqv, match &r {
+                Ok(Ok(b)) => ImplOutcome::Ok(vec![("b".into(), Expect::Bool(*b)), ("used_xi".into(), Expect::Nat(vxis.len())), ("used_ro".into(), Expect::Nat(vros.len()))]),
+                Ok(Err(e)) => ImplOutcome::Refuse(err_kind(e)),
+                Err(a) => ImplOutcome::Refuse(a.clone()),
+            });
+        }
+        if sp_p.probe() != sp_v.probe() || sp_p.log != sp_v.log {
+            ctx.rep.expect_fail(&id0, "ipa/sponge-diverged/history", "prover and verifier sponges differ after the history", c.replay(&id0, ctx.seed, "history end state"));
+        }
+        // a proof moved to another position of the sequence: checked on the sponge state of that position
+        for a in 0..ops.len() {
+            for b in 0..ops.len() {
+                if a == b || (!ctx.thorough && (a + b + i) % 2 == 1) {
+                    continue;
+                }
+                // same statement as op a, sponge as before op b
+                let id = format!("{}/displaced/{}@{}", id0, a, b);
+                let mut sp = ops[b].pre.clone();
+                let csub: Vec<CommS> = ops[a].idx.iter().map(|&k| cs[k].clone()).collect();
+                let comms = comms_from(&csub);
+                let proof = ops[a].ps.to_proof();
+                let before = sp.challenges().len();
+                ro_clear();
+                let r = guarded(|| PC::check(&c.vk, &comms, &ops[a].z, ops[a].values.iter().cloned(), &proof, &mut sp, None));
+                let (vros, _) = ro_take();
+                let vxis: Vec<Fr> = sp.challenges()[before..].to_vec();
+                if matches!(r, Ok(Ok(true))) {
+                    ctx.rep.expect_fail(&id, "ipa/accepted-on-other-transcript/position", &format!("proof of op {} accepted at the sponge position of op {}", a, b), c.replay(&id, ctx.seed, "displaced proof"));
+                }
+                let mut e = rng_for(11, &id, 0);
+                let mut xi_m = vxis.clone();
+                while xi_m.len() < 2 * csub.len() + 2 { xi_m.push(Fr::rand(&mut e)); }
+                let mut ro_m = vros.clone();
+                while ro_m.len() < ops[a].ps.ls.len() + 3 { ro_m.push(rand_nonzero(&mut e)); }
+                let reqv = proof_args(comms_args(base_of(&vkey.trap, "ipa.check", vkey.req), &csub), &ops[a].ps)
+                    .arg("z", wire::fe(&ops[a].z)).arg("vs", wire::fes(&ops[a].values)).arg("xis", wire::fes(&xi_m)).arg("ros", wire::fes(&ro_m));
+                ctx.ses.ask(&id, reqv, match &r {
+                    Ok(Ok(b)) => ImplOutcome::Ok(vec![("b".into(), Expect::Bool(*b))]),
+                    Ok(Err(e)) => ImplOutcome::Refuse(err_kind(e)),
+                    Err(a) => ImplOutcome::Refuse(a.clone()),
+                });
+                ctx.rep.count("ipa/history-displaced");
+            }
+        }
+        // the same history with a different pre-state: every proof must be rejected
+        {
+            let mut sp_o = LogSponge::fresh();
+            sp_o.absorb_seed(9000 + i as u64);
+            let op = &ops[0];
+            let csub: Vec<CommS> = op.idx.iter().map(|&k| cs[k].clone()).collect();
+            let comms = comms_from(&csub);
+            let proof = op.ps.to_proof();
+            let r = guarded(|| PC::check(&c.vk, &comms, &op.z, op.values.iter().cloned(), &proof, &mut sp_o, None));
+            if matches!(r, Ok(Ok(true))) {
+                ctx.rep.expect_fail(&id0, "ipa/accepted-on-other-transcript/pre-state", "proof accepted against a sponge with different prior absorbs", c.replay(&id0, ctx.seed, "other pre-state"));
+            }
+        }
+        counts(ctx, &c);
+        ctx.rep.count(&format!("ipa/history-ops-{}", ops.len()));
+        ctx.rep.case(&format!("{} history of {} opens", c.desc(), ops.len()), Some(format!("ipa-history/{}/{}/{}", c.s, npoly, ops.len())));
+    }
+    flush(ctx, "C11-ipa");
+}
+
+// ------------------------------------------------------------------------------------------------
+// C17: out-of-domain requests of every entry point, model-backed
+// ------------------------------------------------------------------------------------------------
+
+fn c17(ctx: &mut Ctx) {
+    let n = ctx.n(12, 120);
+    let reqs = [1usize, 2, 3, 4, 7, 8];
+    let outcome = |r: &Result<Result<bool, ark_poly_commit::Error>, String>| match r {
+        Ok(Ok(b)) => ImplOutcome::Ok(vec![("b".into(), Expect::Bool(*b))]),
+        Ok(Err(e)) => ImplOutcome::Refuse(err_kind(e)),
+        Err(a) => ImplOutcome::Refuse(a.clone()),
+    };
+    for i in 0..n {
+        let id0 = format!("C17/ipa-model/{}", i);
+        if !ctx.selected(&id0) {
+            continue;
+        }
+        let mut rng = rng_for(ctx.seed, "C17/ipa-model", i as u64);
+        let req = reqs[i % reqs.len()];
+        // two polynomials: the first hiding (and sometimes bounded), the second plain
+        let c = match guarded(|| gen_case_pattern(&mut rng, req, &[true, false], i % 2 == 0)) {
+            Ok(Ok(c)) => c,
+            _ => continue,
+        };
+        let cs = match scalars_or_fail(ctx, &id0, &c) { Some(x) => x, None => continue };
+        let refused = |ctx: &mut Ctx, id: &str, what: &str, answered: bool| {
+            if answered {
+                ctx.rep.expect_fail(id, &format!("ipa/out-of-domain-answered/{}", what), &format!("{}: answered instead of refused", what), c.replay(id, ctx.seed, what));
+            }
+            ctx.rep.count(&format!("ipa/ood-{}", what));
+        };
+        // commit: hiding without an RNG
+        {
+            let id = format!("{}/commit-no-rng", id0);
+            let r = guarded(|| PC::commit(&c.ck, &c.polys, None));
+            refused(ctx, &id, "commit-hiding-without-rng", matches!(r, Ok(Ok(_))));
+            let reqm = polys_args(c.base("ipa.commit"), &c.polys).arg("rng", wire::boolean(false)).arg("draws", wire::fes(&c.commit_draws));
+            ctx.ses.ask(&id, reqm, match &r { Ok(Ok(_)) => ImplOutcome::Ok(vec![]), Ok(Err(e)) => ImplOutcome::Refuse(err_kind(e)), Err(a) => ImplOutcome::Refuse(a.clone()) });
+        }
+        // open: variants of the prover's inputs
+        let z = Fr::rand(&mut rng);
+        let s = c.s;
+        let rng0 = rng.clone();
+        let draws = replay_fr(&rng0, s + 6);
+        let mut open_variant = |ctx: &mut Ctx, name: &str, polys: Vec<LP>, csx: Vec<CommS>, rands: Vec<Rand>, with_rng: bool, must_refuse: bool| {
+            let id = format!("{}/open-{}", id0, name);
+            let comms = comms_from(&csx);
+            let mut sp = LogSponge::fresh();
+            ro_clear();
+            let mut prng = rng0.clone();
+            let r = guarded(|| if with_rng { PC::open(&c.ck, &polys, &comms, &z, &mut sp, &rands, Some(&mut prng)) } else { PC::open(&c.ck, &polys, &comms, &z, &mut sp, &rands, None) });
+            let (ros, _) = ro_take();
+            let answered = matches!(r, Ok(Ok(_)));
+            if must_refuse {
+                refused(ctx, &id, &format!("open-{}", name), answered);
+            }
+            let mut e = rng_for(12, &id, 0);
+            let mut xi_m = sp.challenges();
+            while xi_m.len() < 2 * polys.len() + 2 { xi_m.push(Fr::rand(&mut e)); }
+            let mut ro_m = ros.clone();
+            while ro_m.len() < ark_std::log2(s + 1) as usize + 3 { ro_m.push(rand_nonzero(&mut e)); }
+            let reqm = comms_args(rands_args(polys_args(c.base("ipa.open"), &polys), &rands), &csx)
+                .arg("z", wire::fe(&z)).arg("xis", wire::fes(&xi_m)).arg("ros", wire::fes(&ro_m))
+                .arg("rng", wire::boolean(with_rng)).arg("draws", wire::fes(&draws));
+            ctx.ses.ask(&id, reqm, match &r {
+                Ok(Ok(p)) => ImplOutcome::Ok(vec![("fck".into(), Expect::G1(p.final_comm_key)), ("pc".into(), Expect::Fe(p.c)), ("hcl".into(), Expect::OptG1List(vec![p.hiding_comm])), ("prand".into(), Expect::OptFe(p.rand))]),
+                Ok(Err(e)) => ImplOutcome::Refuse(err_kind(e)),
+                Err(a) => ImplOutcome::Refuse(a.clone()),
+            });
+        };
+        open_variant(ctx, "honest", c.polys.clone(), cs.clone(), c.rands.clone(), true, false);
+        open_variant(ctx, "no-rng", c.polys.clone(), cs.clone(), c.rands.clone(), false, true);
+        {
+            // commitments in another order: labels do not match
+            let mut cx = cs.clone();
+            cx.swap(0, 1);
+            open_variant(ctx, "labels-swapped", c.polys.clone(), cx, c.rands.clone(), true, true);
+            // a relabelled commitment
+            let mut cx = cs.clone();
+            cx[1].label = "other".to_string();
+            open_variant(ctx, "label-renamed", c.polys.clone(), cx, c.rands.clone(), true, true);
+            // a shifted part that does not belong / is missing
+            let mut cx = cs.clone();
+            cx[1].s = Some(Fr::rand(&mut rng));
+            open_variant(ctx, "shifted-added", c.polys.clone(), cx, c.rands.clone(), true, true);
+            if cs[0].s.is_some() {
+                let mut cx = cs.clone();
+                cx[0].s = None;
+                open_variant(ctx, "shifted-dropped", c.polys.clone(), cx, c.rands.clone(), true, true);
+                let mut cx = cs.clone();
+                cx[0].bound = Some(cs[0].bound.unwrap() + 1);
+                open_variant(ctx, "bound-label-differs", c.polys.clone(), cx, c.rands.clone(), true, true);
+                // hiding + bound but the state lacks the shifted randomness
+                let mut rx = c.rands.clone();
+                rx[0].shifted_rand = None;
+                open_variant(ctx, "shifted-rand-missing", c.polys.clone(), cs.clone(), rx, true, true);
+            }
+            // a polynomial beyond the key / a bound below the degree, presented to `open`
+            let big = LabeledPolynomial::new(c.polys[1].label().clone(), UniPoly::rand(s + 1, &mut rng), None, None);
+            open_variant(ctx, "degree-too-large", vec![c.polys[0].clone(), big], cs.clone(), c.rands.clone(), true, true);
+            if c.polys[1].degree() >= 1 {
+                let low = LabeledPolynomial::new(c.polys[1].label().clone(), c.polys[1].polynomial().clone(), Some(c.polys[1].degree() - 1), None);
+                let mut cx = cs.clone();
+                cx[1].bound = Some(c.polys[1].degree() - 1);
+                cx[1].s = Some(Fr::rand(&mut rng));
+                open_variant(ctx, "bound-below-degree", vec![c.polys[0].clone(), low], cx, c.rands.clone(), true, true);
+            }
+            let above = LabeledPolynomial::new(c.polys[1].label().clone(), c.polys[1].polynomial().clone(), Some(s + 1), None);
+            let mut cx = cs.clone();
+            cx[1].bound = Some(s + 1);
+            cx[1].s = Some(Fr::rand(&mut rng));
+            open_variant(ctx, "bound-above-supported", vec![c.polys[0].clone(), above], cx, c.rands.clone(), true, true);
+            // fewer commitments than polynomials: the lists are zipped (answered for the common prefix;
+            // model agreement only)
+            open_variant(ctx, "fewer-commitments", c.polys.clone(), cs[..1].to_vec(), c.rands.clone(), true, false);
+        }
+        // check / batch_check on an honest transcript with out-of-domain shapes
+        let all: Vec<usize> = vec![0, 1];
+        let o = match open_or_fail(ctx, &mut rng, &format!("{}/base", id0), &c, &cs, &all, z) { Some(o) => o, None => continue };
+        for m in [M::RoundsRemove, M::RoundsAdd, M::LenMismatch, M::BoundRelabelAbove, M::ShiftedDrop, M::ShiftedAdd, M::HidingToggle] {
+            let id = format!("{}/check-{:?}", id0, m);
+            let x = match mutate(&mut rng, &c, &cs, &o, m, false) { Some(x) => x, None => continue };
+            let out = check_scalar(ctx, &id, &x.vks, &c.vk, &x.cs, x.z, &x.vs, &x.p);
+            refused(ctx, &id, &format!("check-{:?}", m), out == Outcome3::Accept);
+        }
+        {
+            let mut qs = QuerySet::new();
+            let mut ev = Evaluations::new();
+            for (cm, v) in cs.iter().zip(&o.values) {
+                qs.insert((cm.label.clone(), ("pt".to_string(), z)));
+                ev.insert((cm.label.clone(), z), *v);
+            }
+            let vkey = vks(&c);
+            // an unknown label in the query set
+            let mut q2 = qs.clone();
+            q2.insert(("nosuch".to_string(), ("pt".to_string(), z)));
+            let mut e2 = ev.clone();
+            e2.insert(("nosuch".to_string(), z), Fr::rand(&mut rng));
+            let out = batch_check_scalar(ctx, &mut rng, &format!("{}/batch-unknown-label", id0), &vkey, &c.vk, &cs, &q2, &e2, &[o.ps.clone()]);
+            refused(ctx, &format!("{}/batch-unknown-label", id0), "batch-unknown-label", out == Outcome3::Accept);
+            // a missing evaluation
+            let mut e3 = ev.clone();
+            e3.remove(&(cs[0].label.clone(), z));
+            let out = batch_check_scalar(ctx, &mut rng, &format!("{}/batch-missing-evaluation", id0), &vkey, &c.vk, &cs, &qs, &e3, &[o.ps.clone()]);
+            refused(ctx, &format!("{}/batch-missing-evaluation", id0), "batch-missing-evaluation", out == Outcome3::Accept);
+            // proof list of the wrong length
+            let out = batch_check_scalar(ctx, &mut rng, &format!("{}/batch-no-proof", id0), &vkey, &c.vk, &cs, &qs, &ev, &[]);
+            refused(ctx, &format!("{}/batch-no-proof", id0), "batch-no-proof", out == Outcome3::Accept);
+            let out = batch_check_scalar(ctx, &mut rng, &format!("{}/batch-two-proofs", id0), &vkey, &c.vk, &cs, &qs, &ev, &[o.ps.clone(), o.ps.clone()]);
+            refused(ctx, &format!("{}/batch-two-proofs", id0), "batch-two-proofs", out == Outcome3::Accept);
+            // in-domain: the honest one-label batch is answered and accepted
+            let out = batch_check_scalar(ctx, &mut rng, &format!("{}/batch-honest", id0), &vkey, &c.vk, &cs, &qs, &ev, &[o.ps.clone()]);
+            if out != Outcome3::Accept {
+                ctx.rep.expect_fail(&id0, "ipa/in-domain-refused/batch", &format!("honest one-label batch: {:?}", out), c.replay(&id0, ctx.seed, "batch honest"));
+            }
+        }
+        let _ = outcome;
+        counts(ctx, &c);
+        ctx.rep.case(&format!("{} out-of-domain requests", c.desc()), Some(format!("ipa-ood/{}/{}", c.s, i % 2)));
+    }
+    flush(ctx, "C17-ipa");
 }
